@@ -115,7 +115,18 @@ def _worker(payload):
         inputs2 = {i2.name: inputs1[n1] for n1, i2 in zip(order, m2.graph.input)}
         r1 = I.interpret(ir.from_proto(mp), inputs1)
         r2 = I.interpret(ir.from_proto(m2), inputs2)
-        v = Q.compare(r1, r2, inputs1, stats, skip_if_first_fails=True)
+        def tol_fn(a, b):
+            # forward-error bound: a constant sub-expression evaluated numerically in float32 on one side and symbolically (exact
+            # arithmetic) on the other differs by rounding only
+            try:
+                t1 = I.interpret(ir.from_proto(mp), inputs1, track_mag=True)
+                t2 = I.interpret(ir.from_proto(m2), inputs2, track_mag=True)
+                if len(t1) == 1 and len(t2) == 1 and not t1[0]["bottom"] and not t2[0]["bottom"]:
+                    return t1[0], t2[0]
+            except Exception:  # noqa: BLE001
+                pass
+            return None, None
+        v = Q.compare(r1, r2, inputs1, stats, tol_fn=tol_fn, skip_if_first_fails=True)
         rec.update(verdict=v["verdict"], detail=v.get("detail", ""), stage="equivalence")
         rec["uf"] = sorted(set().union(*[r["uf"] for r in r1 + r2]))
         if v["verdict"] == "cex":
